@@ -161,7 +161,7 @@ def resWord {α : Type} : Res α → String
 def batteryOf : AnyParams → List String
   | .coinswap p => batteryCoinswap p
   | .farm p => batteryFarm p
-  | .htlc p => batteryHtlc p
+  | .htlc p => batteryHtlc p ++ batteryHtlcCarry p
   | .service p => batteryService p
   | .token p => batteryToken p
 
